@@ -233,6 +233,8 @@ func TestC13_NodeSign(t *testing.T) {
 		}
 		if len(sel) > 0 {
 			body["sign_indexes"] = sel
+		} else if rapid.Bool().Draw(t, "empty_list") {
+			body["sign_indexes"] = []int{} // an empty list means the same as no list
 		}
 		rb, _ := json.Marshal(body)
 		req := httptest.NewRequest("POST", "http://127.0.0.1:6420/api/v2/wallet/transaction/sign", bytes.NewReader(rb))
